@@ -243,10 +243,10 @@ def updatePinned (ix : Index) (ov nv : IdxVal) (u : UUID) : Index :=
     the batch B has value `a` but the index has no entry for `a`. -/
 theorem pinned_update_counterexample :
     let s : Spec := ⟨"name", [⟨"name", none, .str ""⟩], true⟩
-    let ix0 : Index := ⟨s, [([.str "a"], ["A"]), ([.str "b"], ["B"])]⟩
-    let ix1 := updatePinned ix0 [.str "b"] [.str "a"] "B"
-    let ix2 := updatePinned ix1 [.str "a"] [.str "c"] "A"
-    get? ix2.m [.str "a"] = none ∧ get? ix2.m [.str "c"] = some ["A"] := by
+    let ix0 : Index := ⟨s, [([some (.str "a")], ["A"]), ([some (.str "b")], ["B"])]⟩
+    let ix1 := updatePinned ix0 [some (.str "b")] [some (.str "a")] "B"
+    let ix2 := updatePinned ix1 [some (.str "a")] [some (.str "c")] "A"
+    get? ix2.m [some (.str "a")] = none ∧ get? ix2.m [some (.str "c")] = some ["A"] := by
   decide
 
 /-! Non-vacuity: a concrete exact cache and a hand-over batch meeting every
@@ -255,13 +255,13 @@ section
 def exSpec : Spec := ⟨"name", [⟨"name", none, .str ""⟩], true⟩
 def exCache : Cache :=
   ⟨[("A", [("name", .atom (.str "a"))]), ("B", [("name", .atom (.str "b"))])],
-   [⟨exSpec, [([.str "a"], ["A"]), ([.str "b"], ["B"])]⟩]⟩
+   [⟨exSpec, [([some (.str "a")], ["A"]), ([some (.str "b")], ["B"])]⟩]⟩
 def exOps : List RowOp :=
   [.update "B" [("name", .atom (.str "a"))], .update "A" [("name", .atom (.str "c"))]]
 
 example : (exOps.map RowOp.uuid).Nodup := by decide
 example : ∃ c', exCache.applyAll exOps = .ok c' ∧
-    (c'.ixs.map (fun ix => (get? ix.m [.str "a"], get? ix.m [.str "b"], get? ix.m [.str "c"])))
+    (c'.ixs.map (fun ix => (get? ix.m [some (.str "a")], get? ix.m [some (.str "b")], get? ix.m [some (.str "c")])))
       = [(some ["B"], none, some ["A"])] := by
   refine ⟨_, rfl, ?_⟩
   decide
